@@ -99,12 +99,15 @@ def modelReducers (k : Kind) : String → Red
   | "first" => Scalar.first k
   | _ => Scalar.last k
 
-/-- rows selected by a mask, in the order the kernel visits them (single block) -/
-def selectRows (rows : List Row) : Mask → Option (List Row)
+/-- elements selected by a mask the way array indexing would, in visiting order -/
+def selectGen {α : Type} (rows : List α) : Mask → Option (List α)
   | .none => some rows
   | .bool m => if m.length = rows.length then some (selectBool rows m) else none
   | .slice a b => some (sliceSel rows a b)
   | .pos p => takePositions rows p
+
+/-- rows selected by a mask, in the order the kernel visits them (single block) -/
+def selectRows (rows : List Row) (m : Mask) : Option (List Row) := selectGen rows m
 
 /-- intersect consecutive chunk lengths with the half-open range `[a, b)` -/
 def sliceChunks (lens : List Nat) (a b : Nat) : List Nat :=
